@@ -131,12 +131,11 @@ template <class F> static void range_exact(const std::string& what, const SU_vec
   if (!(amax > 0)) return;
   SU_vector fa = f(a);
   for (int e2 : {1023 - std::ilogb(amax), -1000}) {
-    double sc = std::ldexp(1.0, e2);
     SU_vector as(a.Dim());
-    for (unsigned k = 0; k < a.Size(); k++) as[k] = a[k] * sc;      // exact: largest component lands in [2^1023, 2^1024)
+    for (unsigned k = 0; k < a.Size(); k++) as[k] = std::ldexp(a[k], e2);      // exact: largest component lands in [2^1023, 2^1024)  (2^e2 itself may not be a double)
     SU_vector fs = f(as);
     for (unsigned k = 0; k < a.Size(); k++)
-      if (!(fs[k] == fa[k] * sc)) { mismatch(what + (e2 > 0 ? ":near-DBL_MAX" : ":2^-1000") + ":comp" + std::to_string(k), std::fabs(fs[k] - fa[k] * sc), 0); break; }
+      if (!(fs[k] == std::ldexp(fa[k], e2))) { mismatch(what + (e2 > 0 ? ":near-DBL_MAX" : ":2^-1000") + ":comp" + std::to_string(k), std::fabs(fs[k] - std::ldexp(fa[k], e2)), 0); break; }
   }
 }
 
